@@ -50,7 +50,7 @@ func evalCode(code *compiler.Code) (obs N) {
 		}
 		return N{"k": "raise", "v": run.ErrKind(err), "msg": err.Error(), "msgcps": run.Cps(err.Error()), "out": out}
 	}
-	return N{"k": "ok", "v": run.Project(res, 8), "out": out}
+	return N{"k": "ok", "v": run.Project(res, 7), "out": out}
 }
 
 func stripMsg(o N) N {
@@ -285,7 +285,7 @@ func piecesWorker(req N) (resp N) {
 			if !ok || res == nil {
 				res = object.Nil
 			}
-			piece = N{"k": "ok", "v": run.Project(res, 8), "sp": vmSP(v)}
+			piece = N{"k": "ok", "v": run.Project(res, 7), "sp": vmSP(v)}
 		}()
 		all := stdout.Bytes()
 		piece["out"] = run.Cps(string(all[outLen:]))
@@ -406,7 +406,7 @@ func gocallWorker(req N) (resp N) {
 		if err != nil {
 			return fail(err)
 		}
-		vals = append(vals, run.Project(res, 7))
+		vals = append(vals, run.Project(res, 6))
 	}
 	return N{"k": "ok", "v": N{"t": "list", "v": vals}, "out": run.Cps(string(stdout.Bytes()))}
 }
